@@ -68,10 +68,11 @@ inductive Phase where
 inductive Ev where
   | req (https : Bool)         -- a request; `https`: absolute-form with scheme https (only meaningful to an explicit proxy)
   | connect                    -- CONNECT host:port
+  | drop                       -- the upstream connection(s) of this client connection are closed by the peer / an error
   deriving DecidableEq, Repr
 
 inductive Kind where
-  | response | tunnel | invalid | ignored
+  | response | tunnel | invalid | ignored | noop
   deriving DecidableEq, Repr
 
 structure State where
@@ -99,6 +100,10 @@ def stepWith (rh : Decide) (auth : Bool) (m : Mode) (σ : State) (cid : Nat) (e 
   let tn := σ.tunneled.contains cid
   match σ.phase cid, e with
   | .closed, _ => (σ, .ignored, [])
+  -- a server disconnect changes nothing for the client connection: it stays in its tunnel (HttpStream.passthrough for its
+  -- whole life) and stays in `tunneled`; the upstream side is simply connected again when next needed
+  | .outer, .drop => (σ, .noop, [])
+  | .tunnel _, .drop => (σ.setPhase cid (.tunnel false), .noop, [])
   | .outer, .connect =>
     if m.isHttpProxy then
       -- 200 to the client, `http_connected` fires; regular mode connects eagerly (no bytes), upstream mode lazily
